@@ -4,6 +4,7 @@ import (
 	"bytes"
 	"fmt"
 	"math"
+	"reflect"
 
 	"github.com/cloudwego/dynamicgo/thrift"
 	"github.com/cloudwego/dynamicgo/thrift/generic"
@@ -297,8 +298,65 @@ func c01RootContainers(c *h.Ctx) {
 	})
 }
 
+// c01WideSiblings: reads behind (and into) a struct with more than a thousand variable-size members - every
+// lookup that has to step over the wide struct as a whole (a later field, a later list element) still finds its
+// element.
+func c01WideSiblings(c *h.Ctx) {
+	c.Run("wide-siblings", c.N(12, 60), func(cs *h.Case) {
+		n := []int{1021, 1022, 1023, 1024, 1100, 5000}[cs.I%6]
+		wide := func(tag int) *tref.Val {
+			w := tref.Struct()
+			for i := 0; i < n; i++ {
+				var x *tref.Val
+				switch (i + cs.I) % 3 {
+				case 0:
+					x = tref.Str(fmt.Sprintf("s%d_%d", tag, i))
+				case 1:
+					x = tref.Struct(tref.Field{ID: 1, V: tref.Int32(int32(i))})
+				default:
+					x = tref.List(tref.BYTE, tref.Byte(int8(i)))
+				}
+				w.Fs = append(w.Fs, tref.Field{ID: int16(i + 1), V: x})
+			}
+			return w
+		}
+		root := tref.Struct(tref.Field{ID: 1, V: wide(1)}, tref.Field{ID: 2, V: tref.Int32(77)},
+			tref.Field{ID: 3, V: tref.List(tref.STRUCT, wide(2), wide(3), tref.Struct(tref.Field{ID: 5, V: tref.Str("last")}))},
+			tref.Field{ID: 4, V: tref.Str("tail")})
+		b := tref.Encode(root)
+		tr := h.TrapCopy(b, cs.R.Bool(), true)
+		defer tr.Free()
+		for _, native := range []bool{false, true} {
+			generic.UseNativeSkipForGet = native
+			rn := generic.NewNode(thrift.STRUCT, tr.B)
+			tail, _ := rn.Field(4).String()
+			mid, _ := rn.Field(2).Int()
+			last, _ := rn.GetByPath(generic.NewPathFieldId(3), generic.NewPathIndex(2), generic.NewPathFieldId(5)).String()
+			in, _ := rn.GetByPath(generic.NewPathFieldId(3), generic.NewPathIndex(1), generic.NewPathFieldId(int16ID(n))).Raw(), 0
+			kids := 0
+			var out []generic.PathNode
+			if err := rn.Children(&out, false, &generic.Options{}); err == nil {
+				kids = len(out)
+			}
+			if tail != "tail" || mid != 77 || last != "last" || len(in) == 0 || kids != 4 {
+				cs.Viol("read:wide-siblings", "members", n, "native-skip", native, "tail", tail, "mid", mid, "last", last, "inner-raw-len", len(in), "children", kids)
+			}
+			v, err := rn.Interface(&generic.Options{})
+			if rv := reflect.ValueOf(v); err != nil || rv.Kind() != reflect.Map || rv.Len() != 4 {
+				cs.Viol("read:wide-siblings:Interface", "members", n, "native-skip", native, "err", err)
+			}
+			cs.Cover("wide_sibling_reads")
+		}
+		generic.UseNativeSkipForGet = false
+		cs.Distinct(fmt.Sprintf("wides-%d", n))
+	})
+}
+
+func int16ID(n int) thrift.FieldID { return thrift.FieldID(n) }
+
 func runC01(c *h.Ctx) {
 	defer c01RootContainers(c)
+	defer c01WideSiblings(c)
 	c.Run("reads", c.N(5000, 100000), func(cs *h.Case) {
 		sc, v := c01Schema(cs)
 		root := structType(sc.Root)
